@@ -44,7 +44,7 @@ class Check(CheckBase):
                           'settings': gen.gen_settings(r, encrypted=(i % 3 != 2), chunker=(12, 12)),
                           'concurrent': r.choice([1, 3, 5, 16])})
         # delete / clean through the program entry point, bracketed by images of the repository directory
-        for i in range(4 if quick else 60):
+        for i in range(8 if quick else 240):
             cases.insert(i, {'kind': 'cli', 'seed': random.Random(f'C08/{self.seed}/cli/{i}').randrange(1 << 30), 'timeout': 900})
         return cases
 
